@@ -82,8 +82,9 @@ func (u *refUnits) refParse(data string) (parseClass, *big.Rat) {
 		name := strings.TrimSpace(s[j:k])
 		i = k
 		var unit *refUnit
+		isBase := false
 		if name == "" {
-			unit = &u.base
+			unit, isBase = &u.base, true
 			unspec = true // base name omitted: the statement speaks of counts followed by names
 		} else {
 			cands := 0
@@ -91,7 +92,7 @@ func (u *refUnits) refParse(data string) (parseClass, *big.Rat) {
 			for idx := range all {
 				for _, nm := range all[idx].names {
 					if nm == name {
-						unit = &all[idx]
+						unit, isBase = &all[idx], idx == 0
 						cands++
 						break
 					}
@@ -111,8 +112,8 @@ func (u *refUnits) refParse(data string) (parseClass, *big.Rat) {
 			unspec = true // repeated unit
 		}
 		lastMult = unit.mult
-		if frac != "" && unit.mult != 1 {
-			unspec = true
+		if frac != "" && !isBase {
+			unspec = true // only the base unit is said to take a fractional count
 		}
 		cnt, _ := new(big.Int).SetString(intPart, 10)
 		v := new(big.Rat).SetInt(new(big.Int).Mul(cnt, big.NewInt(unit.mult)))
@@ -214,7 +215,7 @@ func genUnitName(r *wk.Rand, used map[string]bool, prefixOf []string) string {
 	}
 }
 
-// genUnits builds a generated definition: distinct multipliers >= 2, all names
+// genUnits builds a generated definition: distinct multipliers >= 2 (and now and then a multiplier of 1), all names
 // distinct across units (so the grammar is unambiguous), names may contain
 // regexp metacharacters and be prefixes of each other.
 func genUnits(r *wk.Rand, label string) (*refUnits, *schema.UnitsDefinition) {
@@ -251,6 +252,10 @@ func genUnits(r *wk.Rand, label string) (*refUnits, *schema.UnitsDefinition) {
 			m = int64(1) << uint(1+r.Intn(50))
 		default:
 			m = 2 + r.I64n(1<<40)
+		}
+		if i == 0 && r.Chance(12) {
+			m = 1 // a second name for the base quantity (the description format allows a multiplier of 1)
+			seen[1] = false
 		}
 		if seen[m] {
 			continue
